@@ -22,6 +22,8 @@ type solverSpec struct {
 	args   func(timeoutS int, file string) []string
 }
 
+var fastOnly bool // govc sweep: only the fast path of the portfolio
+
 var solvers = []solverSpec{
 	{"z3-5.1.0", "z3-new", true, func(t int, f string) []string { return []string{fmt.Sprintf("-T:%d", t), f} }},
 	{"z3-4.8.12", "z3", true, func(t int, f string) []string { return []string{fmt.Sprintf("-T:%d", t), f} }},
@@ -404,6 +406,11 @@ func (e *Engine) solve(o *Oblig, dir string, idx int, timeoutS int, crossCheck b
 	r := runSolver(context.Background(), solvers[0], fileL, fast)
 	if r.status == "unsat" && !crossCheck {
 		o.status, o.solver, o.secs = "unsat", r.solver, time.Since(t0).Seconds()
+		return
+	}
+	if fastOnly {
+		// sweep mode: one solver, one short run; anything but a definite answer is dropped by the caller
+		o.status, o.solver, o.secs = r.status, r.solver, time.Since(t0).Seconds()
 		return
 	}
 	if o.kind == "cover" {
